@@ -9,3 +9,5 @@ import field_common
 field_common.field_build()
 import c09, c16
 c09.ps_build(); c16.imp_build()
+import c10
+c10.h5_build()
